@@ -1,2 +1,175 @@
-(* placeholder: property theorems are added with ActionsProofs.v *)
-From LV Require Import Arb.ActionsModel.
+(* C12 — property theorems (statements in full; proofs in ActionsProofs.v).
+
+   Vocabulary (ActionsModel.v / ActionsProofs.v):
+     due e h height        h's broadcast cut-off (expiry - delta, no uint32
+                           underflow) is reached and the node is obliged to
+                           act on h: offered + (forwarded or grace period
+                           over), or received + preimage known;
+     go_witness            an HTLC that justifies going on chain;
+     must_fail e k c x     x is the index of an offered HTLC that is dust on
+                           the confirmed commitment k, or is on another
+                           commitment only (others k c) with no known preimage;
+     close_guarantees      resolvers / no fail-back / received dust closed out
+                           for every HTLC of the confirmed commitment;
+     wf c                  HTLC indexes unique per commitment and direction
+                           (a Go map invariant of newHtlcSet);
+     res_complete          lnwallet supplied a resolution for every HTLC
+                           output of the confirmed commitment;
+     local_sub_conf        protocol shape: an offered HTLC on our commitment
+                           is also on the confirmed one;
+     fixed                 false = lnd as it is, true = notes/C12-fix.diff. *)
+From Coq Require Import List NArith ZArith Bool.
+From LV Require Import Arb.ActionsModel Arb.ActionsProofs.
+Import ListNotations.
+Local Open Scope N_scope.
+
+(* Deadline: at the first block at or past the cut-off of an HTLC it must act
+   on, the node force closes (exactly one ForceCloseChan). *)
+Theorem C12_deadline :
+  forall fixed e active height h,
+    In h (c_local active) -> due e h height ->
+    exists a' ef, on_block fixed e arb0 height active = Some (a', ef) /\
+                  ar_state a' = SCommitmentBroadcasted /\ f_force ef = 1.
+Proof. exact deadline_block. Qed.
+
+(* ... and over any sequence of block epochs containing such a block the
+   arbitrator has left StateDefault with exactly one force close. *)
+Theorem C12_deadline_blocks :
+  forall fixed e active hs h x,
+    In h (c_local active) -> In x hs -> due e h x ->
+    exists a' ef, run_blocks fixed e arb0 active hs no_eff = Some (a', ef) /\
+                  ar_state a' = SCommitmentBroadcasted /\ f_force ef = 1.
+Proof.
+  intros fixed e active hs h x I Ix D.
+  destruct (deadline_blocks fixed e active hs h x I Ix D arb0 no_eff eq_refl)
+    as (a' & ef & R & S & F).
+  exists a', ef. repeat split; assumption.
+Qed.
+
+(* No spurious force close: a chain-triggered force close always has an HTLC
+   that justifies it ... *)
+Theorem C12_no_spurious :
+  forall fixed e active height a' ef,
+    on_block fixed e arb0 height active = Some (a', ef) -> f_force ef <> 0 ->
+    exists h, go_witness e active height h.
+Proof. exact no_spurious. Qed.
+
+(* ... in particular never because of received HTLCs it cannot claim. *)
+Theorem C12_no_spurious_received :
+  forall fixed e active height,
+    (forall h, In h (c_local active ++ c_remote active ++ c_pending active) ->
+               h_incoming h = true) ->
+    (forall h, In h (c_local active) -> e_pre e (h_hash h) = false) ->
+    on_block fixed e arb0 height active = Some (arb0, no_eff).
+Proof. exact no_spurious_received. Qed.
+
+(* Classification, commitment confirms without a prior broadcast (lnd as it
+   is): one resolver per HTLC output, received dust closed out once, and every
+   must-fail HTLC failed back EXACTLY once. *)
+Theorem C12_classification_total_direct :
+  forall e k height c r,
+    uni k = true -> r_breach r = false -> wf c -> res_complete r (conf_of k c) ->
+    exists a' ef,
+      on_close false e arb0 k height c r c = Some (a', ef) /\
+      closed_state (ar_state a') = true /\
+      close_guarantees e k c ef /\
+      (forall x, must_fail e (kkey k) c x -> cnt x (f_fail ef) = 1%nat).
+Proof. exact classification_direct. Qed.
+
+(* The full classification is REFUTED for lnd as it is when the node
+   broadcast first (DESIGN §7-a): offered HTLC 7, output on ours, dust on the
+   peer's commitment, user force close at 100, peer's commitment confirms at
+   101: well-formed, protocol-shaped, resolutions complete — and HTLC 7 gets
+   neither a resolver nor a fail-back, the arbitrator waits for full
+   resolution. *)
+Theorem C12_classification_total_refuted :
+  wf w_sets /\ local_sub_conf KRemote w_sets /\ res_complete w_res (conf_of KRemote w_sets) /\
+  must_fail w_env CRemote w_sets 7 /\
+  exists a1 ef1 a2 ef2,
+    trigger_step false w_env true 100 w_sets = Some (a1, ef1) /\ f_force ef1 = 1 /\
+    on_close false w_env a1 KRemote 101 w_sets w_res w_sets = Some (a2, ef2) /\
+    ar_state a2 = SWaitingFullResolution /\
+    cnt 7 (f_fail ef1 ++ f_fail ef2) = O /\
+    res_idxs out_kind (f_resolvers ef2) = [].
+Proof.
+  split; [exact w_wf|]. split.
+  { intros l [<-|[]]. cbn. now left. }
+  split.
+  { intros h [<-|[]]. cbn. discriminate. }
+  split.
+  { left. exists w_htlc_remote. cbn. repeat split. now left. }
+  exact w_refutes.
+Qed.
+
+(* What does hold for lnd as it is after a broadcast: resolvers and received
+   dust as above, NO index is failed back more than once over the whole path,
+   and a non-dust HTLC that is only on a non-confirmed commitment is failed
+   back exactly once. *)
+Theorem C12_classification_partial_broadcast :
+  forall e user h0 k h1 c r a1 ef1,
+    uni k = true -> r_breach r = false -> wf c -> res_complete r (conf_of k c) ->
+    local_sub_conf k c ->
+    trigger_step false e user h0 c = Some (a1, ef1) -> f_force ef1 = 1 ->
+    exists a2 ef2,
+      on_close false e a1 k h1 c r c = Some (a2, ef2) /\
+      closed_state (ar_state a2) = true /\
+      close_guarantees e k c ef2 /\
+      (forall x, (cnt x (f_fail ef1 ++ f_fail ef2) <= 1)%nat) /\
+      (forall x, In x (idxs (others (kkey k) c)) -> ~ In x (idxs (outs (conf_of k c))) ->
+                 no_pre e c x ->
+                 (forall m, In m (others (kkey k) c) -> h_idx m = x -> h_dust m = false) ->
+                 cnt x (f_fail ef1 ++ f_fail ef2) = 1%nat).
+Proof. exact classification_broadcast_partial. Qed.
+
+(* With the candidate fix every must-fail HTLC is failed back at least once
+   on both paths (a duplicate is possible and harmless, see notes/C12.md). *)
+Theorem C12_classification_total_fixed :
+  forall e k c r,
+    uni k = true -> r_breach r = false -> wf c -> res_complete r (conf_of k c) ->
+    (forall height, exists a' ef,
+        on_close true e arb0 k height c r c = Some (a', ef) /\
+        closed_state (ar_state a') = true /\ close_guarantees e k c ef /\
+        (forall x, must_fail e (kkey k) c x -> (1 <= cnt x (f_fail ef))%nat)) /\
+    (forall user h0 h1 a1 ef1,
+        trigger_step true e user h0 c = Some (a1, ef1) -> f_force ef1 = 1 ->
+        exists a2 ef2,
+          on_close true e a1 k h1 c r c = Some (a2, ef2) /\
+          closed_state (ar_state a2) = true /\ close_guarantees e k c ef2 /\
+          (forall x, must_fail e (kkey k) c x ->
+                     (1 <= cnt x (f_fail ef1 ++ f_fail ef2))%nat)).
+Proof.
+  intros e k c r U Hb W RC. split.
+  - intros height. now apply classification_fixed_direct.
+  - intros user h0 h1 a1 ef1 T F. eapply classification_fixed_broadcast; eassumption.
+Qed.
+
+(* At or after confirmation no fail-back is issued for an offered HTLC that
+   has an output on the confirmed commitment (both variants, both paths). *)
+Theorem C12_no_failback_with_output :
+  forall fixed e a k height c r active,
+    uni k = true -> start_ok a -> r_breach r = false -> wf c ->
+    exists a' ef,
+      on_close fixed e a k height c r active = Some (a', ef) /\
+      forall h, In h (outs (conf_of k c)) -> h_dust h = false ->
+                cnt (h_idx h) (f_fail ef) = O.
+Proof.
+  intros fixed e a k height c r active U S Hb W.
+  destruct (on_close_uni fixed e a k height c r active U S Hb)
+    as (a' & ef & On & F1 & _).
+  exists a', ef. split; [assumption|].
+  intros h I D. rewrite F1. apply cnt_zero_iff.
+  apply close_fail_output; try assumption. apply ktrig_nochain.
+Qed.
+
+(* Breach: every offered HTLC on either remote commitment is failed back, no
+   HTLC resolver is created. *)
+Theorem C12_breach_all_failed :
+  forall fixed e a height c r active,
+    start_ok a ->
+    exists a' ef,
+      on_close fixed e a KBreach height c r active = Some (a', ef) /\
+      (forall h, In h (outs (c_remote c) ++ outs (c_pending c)) ->
+                 (1 <= cnt (h_idx h) (f_fail ef))%nat) /\
+      res_idxs out_kind (f_resolvers ef) = [] /\
+      res_idxs in_kind (f_resolvers ef) = [].
+Proof. exact breach_all_failed. Qed.
